@@ -250,7 +250,7 @@ var c13Profile = &sim.Profile{
 func init() {
 	register(&Check{
 		ID: "C13", Level: "exploration",
-		Rule: "histories of setup/confirm/remove/regenerate/e-mail-verify requests from fully authenticated, half-authenticated (remember), password-step-only and anonymous sessions of 4 accounts, code/token strings incl. empty, other sessions' tokens, codes delivered to other numbers; directed templates (empty e-mail token in a session that never requested one, full e-mail cycle incl. other session's token and re-gating after enrolment, enrolment code replayed on the remove page, two setups inside the resend limit with different numbers, half-authed enrolment attempts). Oracle: every diff in TOTPSecretKey/SMSPhone/RecoveryCodes of U must come from a request whose session at request start is uid=U without halfauth and carries the proof for exactly that change (code valid for the session's enrolment secret == stored secret; code the outbox delivered to the number being enrolled == stored number; current code / unused recovery code for removal; full auth for regeneration), the only exception being consumption of a presented recovery code; with e-mail authorisation required an enrolment handler runs only in a session the ledger saw present the token mailed to that account for that session, and the authorisation is spent by a completed enrolment. distinct_nontrivial = distinct (route, code class, session state, account state, e-mail gate, handler ran, mode, fields changed) signatures.",
+		Rule:  "histories of setup/confirm/remove/regenerate/e-mail-verify requests from fully authenticated, half-authenticated (remember), password-step-only and anonymous sessions of 4 accounts, code/token strings incl. empty, other sessions' tokens, codes delivered to other numbers; directed templates (empty e-mail token in a session that never requested one, full e-mail cycle incl. other session's token and re-gating after enrolment, enrolment code replayed on the remove page, two setups inside the resend limit with different numbers, half-authed enrolment attempts). Oracle: every diff in TOTPSecretKey/SMSPhone/RecoveryCodes of U must come from a request whose session at request start is uid=U without halfauth and carries the proof for exactly that change (code valid for the session's enrolment secret == stored secret; code the outbox delivered to the number being enrolled == stored number; current code / unused recovery code for removal; full auth for regeneration), the only exception being consumption of a presented recovery code; with e-mail authorisation required an enrolment handler runs only in a session the ledger saw present the token mailed to that account for that session, and the authorisation is spent by a completed enrolment. distinct_nontrivial = distinct (route, code class, session state, account state, e-mail gate, handler ran, mode, fields changed) signatures.",
 		Units: func(t string) int { return tierN(t, 360, 6000) },
 		Run: func(c *RunCtx, unit int) {
 			r := Rng(c.Seed, "C13", unit)
